@@ -47,7 +47,7 @@ TIME_OPTS = {1, 2, 8, 13}
 
 def ob(name, entry, desc, defines=(), unwind=8, unwindset=(), timeout=600, mem_gb=4, **kw):
     d = dict(name=name, harness="C39_conf.c", entry=entry, desc=desc, defines=list(defines), unwind=unwind,
-             unwindset=list(unwindset) + ["vpd_memset.0:130", "vpd_memcpy.0:130", "vpe_memcpy.0:130", "vpd_calloc.0:15", "evdns_base_set_max_requests_inflight.4:15"],
+             unwindset=list(unwindset) + ["vpd_memset.0:130", "vpd_memcpy.0:34", "vpd_memcpy.1:2", "vpe_memcpy.0:130", "vpd_calloc.0:15", "evdns_base_set_max_requests_inflight.4:15", "vpd_check_write.0:10"],
              cbmc=list(CHK) + ["--object-bits", "10"] + list(kw.pop("cbmc", [])), timeout=timeout, mem_gb=mem_gb)
     d.update(kw)
     return d
@@ -113,10 +113,11 @@ def line_obs(tier):
                 "the same on exactly the KF-C39-ndots-reset inputs (domain/search line on a base whose ndots is not 1), lines <= 10 bytes",
                 ["C39_N=10", "KF_ONLY_NDOTS_RESET"], unwind=13, instrument=rc, timeout=900, mem_gb=8,
                 expect_fail=["C39: a domain/search line changed ndots"], known_finding="KF-C39-ndots-reset"))
-    o.append(ob("hosts_line_N%d" % H, "harness_hosts",
-                "evdns_base_parse_hosts_line(any line <= %d bytes in an exact object): result and recorded (name, address) entries == reference "
-                "(comment stripped, first field = address without port, remaining fields = names in order); no leak" % H,
-                ["C39_N=%d" % H], unwind=H + 3, timeout=900, mem_gb=8))
+    for af, what in ((0, "rejects the address"), (1, "yields an IPv4 address"), (2, "yields an IPv6 address")):
+        o.append(ob("hosts_line_N%d_af%d" % (H, af), "harness_hosts",
+                    "evdns_base_parse_hosts_line(any line <= %d bytes in an exact object; the address parser %s): result and recorded (name, address) "
+                    "entries == reference (comment stripped, first field = address without port, remaining fields = names in order); no leak" % (H, what),
+                    ["C39_N=%d" % H, "C39_AF=%d" % af], unwind=H + 3, unwindset=["evdns_base_parse_hosts_line.0:%d" % ((H - 1) // 2 + 2)], timeout=900, mem_gb=8))
     o.append(ob("file_split_N%d" % F, "harness_file",
                 "evdns_base_resolv_conf_parse_impl / evdns_base_load_hosts_impl on any %d-byte file: every newline-separated piece reaches the line "
                 "routine exactly once, in order, with the caller's flags; buffer freed; ndots untouched (excluding KF-C39-ndots-reset)" % F,
